@@ -11,6 +11,7 @@ import DarsiaProofs.Saddle
 import DarsiaProofs.SolveLoop
 import DarsiaProofs.WassersteinAux
 import DarsiaProofs.Anderson
+import DarsiaProofs.SaddleBridge
 import DarsiaGen.SolveLoopGen
 namespace Darsia.C04
 open Darsia Darsia.SolveLoop
@@ -176,6 +177,44 @@ theorem newton_preserves_balance (D : C → F → K) (k : C) (f : C → K)
     (hupd : ∀ n c, div D (du n) c - ind k c (dlam n) = f c - (div D (u n) c - ind k c (lam n))) :
     ∀ n, Balanced D k f (u (n + 1)) (lam (n + 1)) :=
   Saddle.newton_preserves_balance D k f u du lam dlam hu hl hupd
+
+open Darsia.SaddleBridge in
+/-- `jacobian(solution)`, `_update_regularization(flux)` and `darcy_init` are the same block assembly with different
+flux-flux blocks: every entry outside the flux-flux block — in particular the whole mass-balance row — is independent of
+the weights, i.e. the SAME matrix row in every iterate -/
+theorem mass_row_same_in_every_iterate (w w' : Saddle.Vec) (hw : w'.size = w.size) (D : Saddle.Mat) (k i j : Nat)
+    (hij : w.size ≤ i ∨ w.size ≤ j) : Saddle.fullEntry w' D k i j = Saddle.fullEntry w D k i j :=
+  assemble_offdiag_independent w w' hw D k i j hij
+
+open Darsia.SaddleBridge in
+/-- the hypothesis `hupd` of `newton_preserves_balance` DISCHARGED from the model: for the Newton system as coded
+(`J(w') δ = rhs − J(w') x`, arbitrary weights `w'` of this iterate) the mass-balance rows of the update read
+`D du − cᵀ dlam = f − (D u − cᵀ lam)` -/
+theorem newton_update_satisfies_hupd (w' : Saddle.Vec) (D : Saddle.Mat) (k : Nat) (hk : k < D.size)
+    (u p du dp g f : Nat → ℚ) (lam dlam r : ℚ)
+    (h : Saddle.mulVec (Saddle.assembleFull w' D k) (Saddle.tabV (w'.size + D.size + 1) (cat3 w'.size D.size du dp dlam))
+        = Saddle.tabV (w'.size + D.size + 1) (fun i => cat3 w'.size D.size g f r i -
+            (Saddle.mulVec (Saddle.assembleFull w' D k)
+              (Saddle.tabV (w'.size + D.size + 1) (cat3 w'.size D.size u p lam))).getD i 0)) :
+    ∀ c : Fin D.size,
+      Saddle.div (DF w' D) (fun e => du e.val) c - Saddle.ind ⟨k, hk⟩ c dlam
+        = f c.val - (Saddle.div (DF w' D) (fun e => u e.val) c - Saddle.ind ⟨k, hk⟩ c lam) :=
+  newton_update_hupd w' D k hk u p du dp g f lam dlam r h
+
+open Darsia.SaddleBridge in
+/-- … so every iterate of the model's Newton iteration — any number of steps, arbitrary positive or non-positive weights in
+every step — satisfies the mass-balance row `D u − cᵀ lam = f` -/
+theorem newton_model_preserves_balance (D : Saddle.Mat) (k nf : Nat) (ws : Nat → Saddle.Vec)
+    (hws : ∀ n, (ws n).size = nf) (g f : Nat → ℚ) (r : ℚ) (u du p dp : Nat → Nat → ℚ) (lam dlam : Nat → ℚ)
+    (hu : ∀ n e, u (n + 1) e = u n e + du n e) (hl : ∀ n, lam (n + 1) = lam n + dlam n)
+    (hstep : ∀ n, Saddle.mulVec (Saddle.assembleFull (ws n) D k)
+          (Saddle.tabV (nf + D.size + 1) (cat3 nf D.size (du n) (dp n) (dlam n)))
+        = Saddle.tabV (nf + D.size + 1) (fun i => cat3 nf D.size g f r i -
+            (Saddle.mulVec (Saddle.assembleFull (ws n) D k)
+              (Saddle.tabV (nf + D.size + 1) (cat3 nf D.size (u n) (p n) (lam n)))).getD i 0)) :
+    ∀ n c, c < D.size →
+      sumTo nf (fun e => D.get c e * u (n + 1) e) - (if c = k then lam (n + 1) else 0) = f c :=
+  SaddleBridge.newton_model_preserves_balance D k nf ws hws g f r u du p dp lam dlam hu hl hstep
 
 /-- Anderson mixing is an affine combination with weights summing to one … -/
 theorem affine_comb_preserves_balance {I : Type*} (s : Finset I) (D : C → F → K) (f : C → K)
